@@ -171,6 +171,15 @@ def event_for_case(samples, cid, nc, ids, variant):
         e["acc_narrow"] = [gamma.proj_rat(ConfusionMatrix(matrix=(Mi * (lim // mx)).astype(dt),
                                                           classes=list(cm.classes)).accuracy(), 1000)
                            for dt, lim in ((np.uint8, 255), (np.int16, 32767))]
+        # the same matrix with all weights rescaled (tiny and huge populations), plain and stacked
+        e["acc_scaled"] = []
+        for f_ in (2.0 ** -34, 1e-12, 4.0 ** 10):
+            mf = np.asarray(M, dtype=float) * f_
+            e["acc_scaled"].append(gamma.proj_rat(ConfusionMatrix(matrix=mf, classes=list(cm.classes)).accuracy(), 1000))
+            st_ = ConfusionMatrix(matrix=np.stack([np.asarray(M, dtype=float), mf]), classes=list(cm.classes))
+            e["acc_scaled"].append(gamma.proj_rat(np.asarray(st_.accuracy())[1], 1000))
+            e["acc_scaled"].append(gamma.proj_rat(1.0 - float(np.asarray(st_.error_rate())[1]), 1000)
+                                   if np.asarray(st_.error_rate())[1] == np.asarray(st_.error_rate())[1] else [0, 0])
         ci = np.asarray(cm.tpr_ci(alpha=0.1))
         ok = ok and ci.shape == (n, 2)
         e["accuracy"] = gamma.proj_rat(cm.accuracy(), 1000)
